@@ -99,10 +99,13 @@ static char *replace_str(char *str, char *orig, char *rep)
   if(!(p = strstr(str, orig)))
     return str;
 
+  if ((size_t)(p-str) >= sizeof(buffer))
+    return str; /* does not fit into the buffer */
+
   strncpy(buffer, str, p-str);
   buffer[p-str] = '\0';
 
-  sprintf(buffer+(p-str), "%s%s", rep, p+strlen(orig));
+  snprintf(buffer+(p-str), sizeof(buffer)-(p-str), "%s%s", rep, p+strlen(orig));
 
   return buffer;
 }
